@@ -230,26 +230,26 @@ fn transmit_step<const U: usize, const C: usize, const Q: usize, const B: usize>
 
     // ---- C08: retry limit and Offline event -------------------------------------------------
     if pre_rc > limit {
-        assert!(sent.is_none(), "C08/retry-limit: nothing is transmitted once 1+max_retry_limit transmissions went unanswered");
-        assert!(event == Some(PeripheralEvent::Offline), "C08/offline-event: exceeding the retry limit raises the Offline event");
-        assert!(p.state == PeripheralState::Offline && !p.is_live(), "C08/offline-event: the peripheral is offline afterwards");
-        assert!(pre_state != PeripheralState::Offline, "C14/lifecycle: Offline is raised only while the peripheral was live");
-        assert!(p.retry_count == 0, "C08/offline-probe: the retry counter restarts for the offline probe");
-        assert!(p.fcb == FrameCountBit::First, "C08/first-after-offline: the frame count bit is re-initialised (FCV=0/FCB=1) when the peripheral is declared offline");
+        vassert!(sent.is_none(), "C08/retry-limit: nothing is transmitted once 1+max_retry_limit transmissions went unanswered");
+        vassert!(event == Some(PeripheralEvent::Offline), "C08/offline-event: exceeding the retry limit raises the Offline event");
+        vassert!(p.state == PeripheralState::Offline && !p.is_live(), "C08/offline-event: the peripheral is offline afterwards");
+        vassert!(pre_state != PeripheralState::Offline, "C14/lifecycle: Offline is raised only while the peripheral was live");
+        vassert!(p.retry_count == 0, "C08/offline-probe: the retry counter restarts for the offline probe");
+        vassert!(p.fcb == FrameCountBit::First, "C08/first-after-offline: the frame count bit is re-initialised (FCV=0/FCB=1) when the peripheral is declared offline");
         kani::cover!(pre_state == PeripheralState::DataExchange, "cover: running peripheral declared offline");
     } else {
-        assert!(event.is_none(), "C08/offline-event: no event without exceeding the retry limit");
-        assert!(p.state == pre_state, "C03/tx-no-transition: transmitting does not change the bring-up state");
+        vassert!(event.is_none(), "C08/offline-event: no event without exceeding the retry limit");
+        vassert!(p.state == pre_state, "C03/tx-no-transition: transmitting does not change the bring-up state");
     }
-    assert!(sent.is_some() == (want != ReqKind::None), "C03/request-kind: a request is sent exactly when the bring-up sequence has one to send");
-    assert!(p.fcb == pre_fcb || (event.is_some() && p.fcb == FrameCountBit::First), "C08/fcb-tx: transmitting never toggles the frame count bit");
-    assert!(p.diag_needed == pre_dn, "C08/tx-frame: a transmission does not change the pending-diagnostics flag");
+    vassert!(sent.is_some() == (want != ReqKind::None), "C03/request-kind: a request is sent exactly when the bring-up sequence has one to send");
+    vassert!(p.fcb == pre_fcb || (event.is_some() && p.fcb == FrameCountBit::First), "C08/fcb-tx: transmitting never toggles the frame count bit");
+    vassert!(p.diag_needed == pre_dn, "C08/tx-frame: a transmission does not change the pending-diagnostics flag");
 
     if let Some(r) = sent {
-        assert!(pre_rc <= limit, "C08/retry-limit: a request goes out only within 1+max_retry_limit transmissions");
-        assert!(p.retry_count == pre_rc + 1, "C08/retry-count: every transmission is counted");
+        vassert!(pre_rc <= limit, "C08/retry-limit: a request goes out only within 1+max_retry_limit transmissions");
+        vassert!(p.retry_count == pre_rc + 1, "C08/retry-count: every transmission is counted");
         if pre_state == PeripheralState::Offline {
-            assert!(want == ReqKind::Diag, "C08/offline-probe: an offline peripheral is only probed with diagnostics requests");
+            vassert!(want == ReqKind::Diag, "C08/offline-probe: an offline peripheral is only probed with diagnostics requests");
         }
 
         // reference header and PDU
@@ -296,19 +296,19 @@ fn transmit_step<const U: usize, const C: usize, const Q: usize, const B: usize>
         };
         let mut expect = [0u8; B];
         let elen = ref_encode(&h, plen, pdu, &mut expect);
-        assert!(r.bytes_sent() == elen, "C03/wire: frame length equals the reference frame");
-        assert!(r.expects_reply() == Some(addr), "C03/wire: the request expects a reply from the peripheral");
+        vassert!(r.bytes_sent() == elen, "C03/wire: frame length equals the reference frame");
+        vassert!(r.expects_reply() == Some(addr), "C03/wire: the request expects a reply from the peripheral");
         let mut i = 0;
         while i < elen {
             if want == ReqKind::DataExchange {
-                assert!(buf[i] == expect[i], "C04/dx-request: a Data_Exchange request is the reference frame carrying exactly the current output image (all zeros in Clear), on first transmission and on every retransmission");
+                vassert!(buf[i] == expect[i], "C04/dx-request: a Data_Exchange request is the reference frame carrying exactly the current output image (all zeros in Clear), on first transmission and on every retransmission");
             } else {
-                assert!(buf[i] == expect[i], "C03/wire: request bytes equal the reference frame (SAPs, function code, FCB/FCV, PDU)");
+                vassert!(buf[i] == expect[i], "C03/wire: request bytes equal the reference frame (SAPs, function code, FCB/FCV, PDU)");
             }
             i += 1;
         }
         if want == ReqKind::DataExchange {
-            assert!(in_dx(pre_state), "C03/dx-only-after-bringup: a Data_Exchange request is sent only in the data exchange states");
+            vassert!(in_dx(pre_state), "C03/dx-only-after-bringup: a Data_Exchange request is sent only in the data exchange states");
             kani::cover!(qlen == Q && op == crate::dp::OperatingState::Operate, "cover: full-size output image sent");
             kani::cover!(op == crate::dp::OperatingState::Clear && qlen > 0, "cover: Clear state sends zeros");
         }
@@ -316,15 +316,15 @@ fn transmit_step<const U: usize, const C: usize, const Q: usize, const B: usize>
         kani::cover!(want == ReqKind::ChkCfg && clen == C, "cover: Chk_Cfg with full config");
         kani::cover!(want == ReqKind::Diag && pre_state == PeripheralState::Offline, "cover: offline probe");
     } else if event.is_none() {
-        assert!(p.retry_count == 0, "C08/retry-count: declining resets the retry counter");
+        vassert!(p.retry_count == 0, "C08/retry-count: declining resets the retry counter");
     }
     // process images untouched
     let mut i = 0;
     while i < qlen {
-        assert!(p.pi_q()[i] == pi_q_copy[i], "C04/pi-q-readonly: transmitting never writes the output image");
+        vassert!(p.pi_q()[i] == pi_q_copy[i], "C04/pi-q-readonly: transmitting never writes the output image");
         i += 1;
     }
-    assert!(inv_dp(&p, &fdl), "C03/inv: representation invariant preserved by transmit_telegram");
+    vassert!(inv_dp(&p, &fdl), "C03/inv: representation invariant preserved by transmit_telegram");
 }
 
 #[kani::proof]
@@ -438,9 +438,9 @@ fn receive_step<const I: usize, const D: usize, const P: usize>() {
         s => s, // data exchange states: checked below
     };
     if !in_dx(pre_state) {
-        assert!(p.state == want_state, "C03/transition: bring-up state follows the DP slave bring-up sequence");
+        vassert!(p.state == want_state, "C03/transition: bring-up state follows the DP slave bring-up sequence");
         if in_dx(p.state) {
-            assert!(
+            vassert!(
                 pre_state == PeripheralState::ValidateConfig && diag_ok && flags & (PRM_FAULT | CFG_FAULT | PRM_REQ | NOT_READY) == 0,
                 "C03/dx-only-after-bringup: data exchange is entered only from config validation by a ready diagnostics reply"
             );
@@ -454,11 +454,11 @@ fn receive_step<const I: usize, const D: usize, const P: usize>() {
             }
             _ => None,
         };
-        assert!(event == want_event, "C14/lifecycle: Online on leaving Offline, Configured on entering data exchange, Parameter/ConfigError on a fault report, nothing else");
+        vassert!(event == want_event, "C14/lifecycle: Online on leaving Offline, Configured on entering data exchange, Parameter/ConfigError on a fault report, nothing else");
     } else if pre_dn {
-        assert!(p.state == pre_state, "C03/transition: a diagnostics round in data exchange does not change the state");
-        assert!(event == if diag_ok { Some(PeripheralEvent::Diagnostics) } else { None }, "C14/lifecycle: Diagnostics event exactly for a well-formed diagnostics reply");
-        assert!(p.diag_needed == (pre_needed && !diag_ok), "C03/transition: the diagnostics request is cleared exactly by a well-formed diagnostics reply");
+        vassert!(p.state == pre_state, "C03/transition: a diagnostics round in data exchange does not change the state");
+        vassert!(event == if diag_ok { Some(PeripheralEvent::Diagnostics) } else { None }, "C14/lifecycle: Diagnostics event exactly for a well-formed diagnostics reply");
+        vassert!(p.diag_needed == (pre_needed && !diag_ok), "C03/transition: the diagnostics request is cleared exactly by a well-formed diagnostics reply");
     }
 
     // ---- C04: input process image -------------------------------------------------------------
@@ -474,30 +474,30 @@ fn receive_step<const I: usize, const D: usize, const P: usize>() {
         }
         i += 1;
     }
-    assert!(p.pi_i().len() == ilen, "C04/pi-i: the input image keeps its configured length");
+    vassert!(p.pi_i().len() == ilen, "C04/pi-i: the input image keeps its configured length");
     let status_bad = matches!(rstatus, ResponseStatus::UserError | ResponseStatus::NoResources | ResponseStatus::SapNotEnabled | ResponseStatus::NoDataReady);
     let dx_round = in_dx(pre_state) && !pre_dn;
     if changed {
-        assert!(dx_round, "C04/pi-i-necessary: the input image changes only in a data exchange round (no diagnostics outstanding)");
-        assert!(!is_sc && plen == ilen && !status_bad, "C04/pi-i-necessary: only a data reply of exactly the configured length without error status changes the input image");
-        assert!(equals_pdu, "C04/pi-i-equals: after an update the input image equals the reply payload byte for byte");
+        vassert!(dx_round, "C04/pi-i-necessary: the input image changes only in a data exchange round (no diagnostics outstanding)");
+        vassert!(!is_sc && plen == ilen && !status_bad, "C04/pi-i-necessary: only a data reply of exactly the configured length without error status changes the input image");
+        vassert!(equals_pdu, "C04/pi-i-equals: after an update the input image equals the reply payload byte for byte");
     }
     if dx_round && !is_sc && plen == ilen && matches!(rstatus, ResponseStatus::DataLow | ResponseStatus::DataHigh) {
-        assert!(equals_pdu, "C04/pi-i-sufficient: a well-formed Data_Exchange reply of the configured length updates the input image");
-        assert!(event == Some(PeripheralEvent::DataExchanged), "C04/event: DataExchanged is reported for an update");
-        assert!(p.state == PeripheralState::DataExchange && p.is_running(), "C14/lifecycle: DataExchanged implies the peripheral is running");
+        vassert!(equals_pdu, "C04/pi-i-sufficient: a well-formed Data_Exchange reply of the configured length updates the input image");
+        vassert!(event == Some(PeripheralEvent::DataExchanged), "C04/event: DataExchanged is reported for an update");
+        vassert!(p.state == PeripheralState::DataExchange && p.is_running(), "C14/lifecycle: DataExchanged implies the peripheral is running");
         kani::cover!(ilen == I, "cover: full-size input image updated");
     }
     if event == Some(PeripheralEvent::DataExchanged) {
-        assert!(dx_round, "C04/event: DataExchanged only in a data exchange round");
-        assert!(
+        vassert!(dx_round, "C04/event: DataExchanged only in a data exchange round");
+        vassert!(
             (!is_sc && plen == ilen && !status_bad && equals_pdu) || (is_sc && ilen == 0),
             "C04/event: DataExchanged iff the input image was updated (or SC for an input-less peripheral)"
         );
-        assert!(p.is_running(), "C14/lifecycle: DataExchanged implies is_running()");
+        vassert!(p.is_running(), "C14/lifecycle: DataExchanged implies is_running()");
     }
     if dx_round && is_sc && ilen == 0 {
-        assert!(event == Some(PeripheralEvent::DataExchanged), "C04/event: SC to an input-less peripheral counts as data exchange");
+        vassert!(event == Some(PeripheralEvent::DataExchanged), "C04/event: SC to an input-less peripheral counts as data exchange");
     }
     if dx_round {
         let want = if !is_sc && rstatus == ResponseStatus::SapNotEnabled {
@@ -507,47 +507,47 @@ fn receive_step<const I: usize, const D: usize, const P: usize>() {
         } else {
             pre_state
         };
-        assert!(p.state == want, "C03/transition: data exchange continues; 'SAP not enabled' sends the peripheral back to config validation");
+        vassert!(p.state == want, "C03/transition: data exchange continues; 'SAP not enabled' sends the peripheral back to config validation");
     }
-    assert!(p.pi_q()[0] == 0x5A && p.pi_q()[1] == 0x5A, "C04/pi-q-readonly: a reply never writes the output image");
+    vassert!(p.pi_q()[0] == 0x5A && p.pi_q()[1] == 0x5A, "C04/pi-q-readonly: a reply never writes the output image");
 
     // ---- C17: diagnostics decoding ------------------------------------------------------------
     let post_ext_len = crate::dp::diagnostics::verif::ext_diag_len(&p.ext_diag);
     if diag_expected && diag_ok {
         let d = p.last_diagnostics().unwrap();
-        assert!(d.flags.bits() == flags & !PERMANENT, "C17/decode-flags: reported flags equal the first two reply bytes (little endian), without the always-one permanent bit");
-        assert!(d.ident_number == (u16::from(pdu_store[4]) << 8 | u16::from(pdu_store[5])), "C17/decode-ident: ident number equals reply bytes 4..6 (big endian)");
-        assert!(d.master_address == if pdu_store[3] == 255 { None } else { Some(pdu_store[3]) }, "C17/decode-master: master address equals reply byte 3 (255 = none)");
+        vassert!(d.flags.bits() == flags & !PERMANENT, "C17/decode-flags: reported flags equal the first two reply bytes (little endian), without the always-one permanent bit");
+        vassert!(d.ident_number == (u16::from(pdu_store[4]) << 8 | u16::from(pdu_store[5])), "C17/decode-ident: ident number equals reply bytes 4..6 (big endian)");
+        vassert!(d.master_address == if pdu_store[3] == 255 { None } else { Some(pdu_store[3]) }, "C17/decode-master: master address equals reply byte 3 (255 = none)");
         let fits = dcap > 0 && plen - 6 <= dcap;
         if flags & EXT_DIAG != 0 && fits {
-            assert!(post_ext_len == plen - 6, "C17/store: extended diagnostics stored when they fit");
+            vassert!(post_ext_len == plen - 6, "C17/store: extended diagnostics stored when they fit");
             let raw = d.extended_diagnostics.raw_diag_buffer().unwrap();
             let mut i = 0;
             while i < plen - 6 {
-                assert!(raw[i] == pdu_store[6 + i], "C17/store: stored extended diagnostics equal the reply's tail");
+                vassert!(raw[i] == pdu_store[6 + i], "C17/store: stored extended diagnostics equal the reply's tail");
                 i += 1;
             }
             kani::cover!(dcap > 0 && plen - 6 == dcap, "cover: exactly fitting extended diagnostics");
         } else {
-            assert!(post_ext_len == pre_ext_len, "C17/store: extended diagnostics that are absent or do not fit leave the stored ones unchanged");
+            vassert!(post_ext_len == pre_ext_len, "C17/store: extended diagnostics that are absent or do not fit leave the stored ones unchanged");
             kani::cover!(flags & EXT_DIAG != 0 && dcap > 0 && plen - 6 > dcap, "cover: oversize extended diagnostics ignored");
         }
     } else {
-        assert!(post_ext_len == pre_ext_len, "C17/store: only a diagnostics reply touches the stored extended diagnostics");
-        assert!(p.diag == pre_diag, "C17/decode: only a well-formed diagnostics reply changes the reported diagnostics");
+        vassert!(post_ext_len == pre_ext_len, "C17/store: only a diagnostics reply touches the stored extended diagnostics");
+        vassert!(p.diag == pre_diag, "C17/decode: only a well-formed diagnostics reply changes the reported diagnostics");
     }
 
     // ---- C08: FCB and retry counter on replies -------------------------------------------------
     let observable_change = p.state != pre_state || event.is_some() || changed || p.diag != pre_diag;
-    assert!(p.fcb == pre_fcb || p.fcb == cycled(pre_fcb), "C08/fcb-rx: a reply leaves the frame count bit or toggles it (FCV=1 afterwards)");
+    vassert!(p.fcb == pre_fcb || p.fcb == cycled(pre_fcb), "C08/fcb-rx: a reply leaves the frame count bit or toggles it (FCV=1 afterwards)");
     if observable_change {
-        assert!(p.fcb == cycled(pre_fcb), "C08/toggle-after-accepted-reply: a reply that changed observable state toggles the frame count bit");
-        assert!(p.retry_count == 0, "C08/retry-count: an accepted reply resets the retry counter");
+        vassert!(p.fcb == cycled(pre_fcb), "C08/toggle-after-accepted-reply: a reply that changed observable state toggles the frame count bit");
+        vassert!(p.retry_count == 0, "C08/retry-count: an accepted reply resets the retry counter");
     }
     if p.fcb == pre_fcb {
-        assert!(p.retry_count == pre_rc || p.retry_count == 0, "C08/retry-count: a rejected reply never increases the retry counter");
+        vassert!(p.retry_count == pre_rc || p.retry_count == 0, "C08/retry-count: a rejected reply never increases the retry counter");
     }
-    assert!(inv_dp(&p, &fdl), "C03/inv: representation invariant preserved by receive_reply");
+    vassert!(inv_dp(&p, &fdl), "C03/inv: representation invariant preserved by receive_reply");
     kani::cover!(pre_state == PeripheralState::ValidateConfig && p.state == PeripheralState::Offline, "cover: fault report in config validation");
     kani::cover!(pre_state == PeripheralState::ValidateConfig && p.state == PeripheralState::WaitForParam, "cover: parameter request in config validation");
     kani::cover!(dx_round && p.state == PeripheralState::ValidateConfig, "cover: SAP not enabled in data exchange");
@@ -576,11 +576,11 @@ fn c03_inv_initial() {
     let address: u8 = kani::any();
     kani::assume(address <= 125);
     let mut p = Peripheral::new(address, PeripheralOptions::default(), &mut pi_i[..], &mut pi_q[..]);
-    assert!(inv_dp(&p, &fdl), "C03/inv: representation invariant holds for a new peripheral");
-    assert!(!p.is_live() && !p.is_running() && p.fcb == FrameCountBit::First, "C08/first-request: a new peripheral starts offline with the initial frame count bit");
+    vassert!(inv_dp(&p, &fdl), "C03/inv: representation invariant holds for a new peripheral");
+    vassert!(!p.is_live() && !p.is_running() && p.fcb == FrameCountBit::First, "C08/first-request: a new peripheral starts offline with the initial frame count bit");
     p.request_diagnostics();
     p.pi_q_mut()[0] = kani::any();
-    assert!(inv_dp(&p, &fdl), "C03/inv: user calls preserve the invariant");
+    vassert!(inv_dp(&p, &fdl), "C03/inv: user calls preserve the invariant");
     kani::cover!(true, "cover: new peripheral");
 }
 
@@ -593,7 +593,7 @@ fn wire_header(buf: &[u8], n: usize) -> DataTelegramHeader {
     match Telegram::deserialize(&buf[..n]) {
         Some(Ok((Telegram::Data(t), _))) => t.h.clone(),
         _ => {
-            assert!(false, "C08/wire: every request is a well-formed data telegram");
+            vassert!(false, "C08/wire: every request is a well-formed data telegram");
             unreachable!()
         }
     }
@@ -603,7 +603,7 @@ fn req_fcb(h: &DataTelegramHeader) -> (FrameCountBit, RequestType) {
     match h.fc {
         FunctionCode::Request { fcb, req } => (fcb, req),
         _ => {
-            assert!(false, "C08/wire: a peripheral is only ever sent requests");
+            vassert!(false, "C08/wire: a peripheral is only ever sent requests");
             unreachable!()
         }
     }
@@ -689,8 +689,8 @@ fn c08_request_pair_q() {
             let h2 = wire_header(&buf2, r.bytes_sent());
             let (fcb2, req2) = req_fcb(&h2);
             if fcb2.fcv() && fcb2.fcb() == fcb1.fcb() {
-                assert!(!accepted, "C08/same-fcb-after-accepted-reply: a request following an accepted reply never re-uses the frame count bit");
-                assert!(
+                vassert!(!accepted, "C08/same-fcb-after-accepted-reply: a request following an accepted reply never re-uses the frame count bit");
+                vassert!(
                     h2.da == h1.da && h2.dsap == h1.dsap && h2.ssap == h1.ssap && req2 == req1,
                     "C08/same-fcb-different-service: two consecutive requests with the same frame count bit are the same service to the same destination (a retransmission)"
                 );
@@ -698,24 +698,24 @@ fn c08_request_pair_q() {
                 kani::cover!(!got_reply, "cover: retransmission after a time-out");
             }
             if accepted {
-                assert!(fcb2.fcv() && fcb2.fcb() != fcb1.fcb(), "C08/toggle-after-accepted-reply: the request after an accepted reply toggles the bit with FCV=1");
+                vassert!(fcb2.fcv() && fcb2.fcb() != fcb1.fcb(), "C08/toggle-after-accepted-reply: the request after an accepted reply toggles the bit with FCV=1");
                 kani::cover!(true, "cover: toggled request after accepted reply");
             }
-            assert!(h2.da == addr, "C08/wire: requests go to the peripheral's address");
+            vassert!(h2.da == addr, "C08/wire: requests go to the peripheral's address");
         }
         Err((_tx, Some(ev))) => {
-            assert!(ev == PeripheralEvent::Offline, "C08/offline-event: the only event of a transmit turn is Offline");
+            vassert!(ev == PeripheralEvent::Offline, "C08/offline-event: the only event of a transmit turn is Offline");
             // the peripheral was declared offline: the next request is the first of a new life
             let mut buf3 = [0u8; 20];
             match p.transmit_telegram(now, &dp, &fdl, TelegramTx::new(&mut buf3), hp) {
                 Ok(r) => {
                     let h3 = wire_header(&buf3, r.bytes_sent());
                     let (fcb3, _) = req_fcb(&h3);
-                    assert!(h3.dsap == Some(60) && h3.ssap == Some(62), "C08/offline-probe: an offline peripheral is probed with a diagnostics request");
-                    assert!(!fcb3.fcv() && fcb3.fcb(), "C08/first-after-offline: the first request after the Offline event carries FCV=0/FCB=1");
+                    vassert!(h3.dsap == Some(60) && h3.ssap == Some(62), "C08/offline-probe: an offline peripheral is probed with a diagnostics request");
+                    vassert!(!fcb3.fcv() && fcb3.fcb(), "C08/first-after-offline: the first request after the Offline event carries FCV=0/FCB=1");
                     kani::cover!(true, "cover: first probe after Offline event");
                 }
-                Err(_) => assert!(false, "C08/offline-probe: a peripheral that was just declared offline is probed in the next turn"),
+                Err(_) => vassert!(false, "C08/offline-probe: a peripheral that was just declared offline is probed in the next turn"),
             }
         }
         Err((_tx, None)) => {}
@@ -1021,7 +1021,7 @@ fn c07_refines_transmit() {
         Err((_t, ev)) => (None, ev),
     };
     let (kind, offline) = m.transmit();
-    assert!(sent.is_some() == (kind != ReqKind::None) && (event == Some(PeripheralEvent::Offline)) == offline && (event.is_none() || offline), "C07/refines: the real master sends a request / raises Offline exactly when the reference master does");
+    vassert!(sent.is_some() == (kind != ReqKind::None) && (event == Some(PeripheralEvent::Offline)) == offline && (event.is_none() || offline), "C07/refines: the real master sends a request / raises Offline exactly when the reference master does");
     if let Some(n) = sent {
         let h = wire_header(&buf, n);
         let want_dsap = match kind {
@@ -1030,9 +1030,9 @@ fn c07_refines_transmit() {
             ReqKind::ChkCfg => Some(62),
             _ => None,
         };
-        assert!(h.dsap == want_dsap, "C07/refines: the request is of the kind the reference master sends");
+        vassert!(h.dsap == want_dsap, "C07/refines: the request is of the kind the reference master sends");
     }
-    assert!(RefMaster::of(&p, &fdl) == m, "C07/refines: after a transmit turn the real peripheral's control state equals the reference master's");
+    vassert!(RefMaster::of(&p, &fdl) == m, "C07/refines: after a transmit turn the real peripheral's control state equals the reference master's");
     kani::cover!(offline, "cover: offline declared");
     kani::cover!(kind == ReqKind::DataExchange, "cover: data exchange request");
 }
@@ -1081,8 +1081,8 @@ fn c07_refines_receive() {
     };
     let ev = p.receive_reply(crate::time::Instant::ZERO, &dp, &fdl, telegram);
     let want_ev = m.receive(reply_for_ref);
-    assert!(ev == want_ev, "C07/refines: the real master raises the event the reference master raises");
-    assert!(RefMaster::of(&p, &fdl) == m, "C07/refines: after a reply the real peripheral's control state equals the reference master's");
+    vassert!(ev == want_ev, "C07/refines: the real master raises the event the reference master raises");
+    vassert!(RefMaster::of(&p, &fdl) == m, "C07/refines: after a reply the real peripheral's control state equals the reference master's");
     kani::cover!(ev == Some(PeripheralEvent::Configured), "cover: configured");
     kani::cover!(ev == Some(PeripheralEvent::DataExchanged), "cover: data exchanged");
 }
@@ -1210,7 +1210,7 @@ fn history_then_progress<const K: usize, const TURNS: usize>(limit: u8) {
             _ => {
                 let (kind, offline) = m.transmit();
                 if offline {
-                    assert!(live, "C14/lifecycle: Offline is reported only for a peripheral that was live");
+                    vassert!(live, "C14/lifecycle: Offline is reported only for a peripheral that was live");
                     live = false;
                 }
                 if kind != ReqKind::None && ev != 5 {
@@ -1232,7 +1232,7 @@ fn history_then_progress<const K: usize, const TURNS: usize>(limit: u8) {
                         let evt = m.receive(r);
                         match evt {
                             Some(PeripheralEvent::Online) => {
-                                assert!(!live, "C07/events: Online is reported only for a peripheral that was not live");
+                                vassert!(!live, "C07/events: Online is reported only for a peripheral that was not live");
                                 live = true;
                             }
                             Some(PeripheralEvent::ParameterError) | Some(PeripheralEvent::ConfigError) => live = false,
@@ -1242,7 +1242,7 @@ fn history_then_progress<const K: usize, const TURNS: usize>(limit: u8) {
                 }
             }
         }
-        assert!(live == (m.state != PeripheralState::Offline), "C14/lifecycle: the events tell whether the peripheral is live");
+        vassert!(live == (m.state != PeripheralState::Offline), "C14/lifecycle: the events tell whether the peripheral is live");
         e += 1;
     }
     kani::cover!(m.state == PeripheralState::DataExchange && m.rc == limit + 1, "cover: history ends with a running peripheral about to be declared offline");
@@ -1257,12 +1257,12 @@ fn history_then_progress<const K: usize, const TURNS: usize>(limit: u8) {
         }
         t += 1;
     }
-    assert!(m.state == PeripheralState::DataExchange && s.stage == Stage::DataExch, "C07/progress: after any history of faults a conforming peripheral is back in cyclic data exchange within the bounded number of fault-free turns");
+    vassert!(m.state == PeripheralState::DataExchange && s.stage == Stage::DataExch, "C07/progress: after any history of faults a conforming peripheral is back in cyclic data exchange within the bounded number of fault-free turns");
     let (kind, offline) = m.transmit();
-    assert!(!offline && (kind == ReqKind::DataExchange || kind == ReqKind::Diag), "C07/progress: once in data exchange the master keeps exchanging data (or fetching requested diagnostics)");
+    vassert!(!offline && (kind == ReqKind::DataExchange || kind == ReqKind::Diag), "C07/progress: once in data exchange the master keeps exchanging data (or fetching requested diagnostics)");
     let r = s.handle(kind, m.fcb);
     m.receive(r);
-    assert!(m.state == PeripheralState::DataExchange && s.stage == Stage::DataExch, "C07/progress: data exchange is stable on a fault-free bus");
+    vassert!(m.state == PeripheralState::DataExchange && s.stage == Stage::DataExch, "C07/progress: data exchange is stable on a fault-free bus");
 }
 
 #[kani::proof]
@@ -1303,11 +1303,11 @@ fn c07_silent_goes_offline() {
         } else if kind != ReqKind::None && offline_events == 0 {
             sent += 1;
         } else if kind != ReqKind::None {
-            assert!(kind == ReqKind::Diag, "C08/offline-probe: an offline peripheral is only probed with diagnostics requests");
+            vassert!(kind == ReqKind::Diag, "C08/offline-probe: an offline peripheral is only probed with diagnostics requests");
         }
         t += 1;
     }
-    assert!(offline_events == 1, "C07/offline: a peripheral that stops answering is reported Offline exactly once");
-    assert!(sent + rc0 == limit + 1, "C08/retry-limit: an unanswered request is transmitted exactly 1+max_retry_limit times before the peripheral is declared offline");
-    assert!(m.state == PeripheralState::Offline && m.fcb == FrameCountBit::First, "C08/first-after-offline: probing restarts with the initial frame count bit");
+    vassert!(offline_events == 1, "C07/offline: a peripheral that stops answering is reported Offline exactly once");
+    vassert!(sent + rc0 == limit + 1, "C08/retry-limit: an unanswered request is transmitted exactly 1+max_retry_limit times before the peripheral is declared offline");
+    vassert!(m.state == PeripheralState::Offline && m.fcb == FrameCountBit::First, "C08/first-after-offline: probing restarts with the initial frame count bit");
 }
